@@ -29,6 +29,7 @@ type rec struct {
 	T    int    `json:"t"`
 	Op   opD    `json:"op"`
 	F    []int  `json:"f,omitempty"` // artifact: parameters listed
+	Bad  [][2]int `json:"bad,omitempty"` // artifact: (parameter, value) pairs for which the producer's evaluation panics
 	Resp respD  `json:"resp"`
 	Inv  uint64 `json:"inv"`
 	Res  uint64 `json:"res"`
@@ -72,6 +73,8 @@ func coqResp(r respD) string {
 		return fmt.Sprintf("(RGet %d)", r.V)
 	case "art":
 		return fmt.Sprintf("(RArt %s)", coqNs(r.Vs))
+	case "panic":
+		return "RPanic"
 	}
 	return "RFail"
 }
@@ -88,6 +91,13 @@ func seqMatches(vals []int, c *rec) bool {
 	case "g":
 		return c.Resp.K == "get" && c.Resp.V == vals[c.Op.P]
 	case "a":
+		for _, b := range c.Bad {
+			for _, p := range c.F {
+				if p == b[0] && vals[p] == b[1] {
+					return c.Resp.K == "panic"
+				}
+			}
+		}
 		if c.Resp.K != "art" || len(c.Resp.Vs) != len(c.F) {
 			return false
 		}
@@ -170,6 +180,13 @@ func coqCall(c *rec) string {
 		op = fmt.Sprintf("(G %d)", c.Op.P)
 	case "a":
 		op = fmt.Sprintf("(A %s%%nat)", coqNs(c.F))
+		if len(c.Bad) > 0 {
+			var bs []string
+			for _, b := range c.Bad {
+				bs = append(bs, fmt.Sprintf("PB %d %d", b[0], b[1]))
+			}
+			op = fmt.Sprintf("(AP %s%%nat [%s])", coqNs(c.F), strings.Join(bs, "; "))
+		}
 	}
 	resp = coqResp(c.Resp)
 	return fmt.Sprintf("K %d %s %s %d %d", c.T, op, resp, c.Inv, c.Res)
